@@ -615,9 +615,10 @@ def fresh_name(ctx):
 
 
 @st.composite
-def scalar_decl(draw, ctx, symbolic=None):
+def scalar_decl(draw, ctx, symbolic=None, name=None):
     vtype = draw(st.sampled_from(["int", "float", "float", "complex", "bool", "str"]))
-    name = _decl_name(draw, ctx)
+    if name is None:
+        name = _decl_name(draw, ctx)
     if vtype in ("int", "float") and draw(st.integers(0, 24)) == 0:
         # an integer literal beyond the 64-bit range as the whole initialiser (the variable is not referenced afterwards)
         big = draw(st.one_of(st.integers(2 ** 63, 2 ** 64 + 5), st.integers(2 ** 64, 2 ** 80), st.just(2 ** 63)))
